@@ -60,13 +60,26 @@ def harnesses():
     # LATTICE harnesses with the real multipliers (c02::mul_lattice / widening_lattice, 3 free bits per limb) were probed at
     # 192/256 bits and 192x192, 256x128, 256x256: CBMC exhausts 14 GB after 9-10 min (16+16 full 64x64 multiplier circuits
     # next to addmul's symbolic slices) - not registered; the bodies stay in c02.rs
-    # 4-limb shapes of the generic trimming addmul (two full rows): probing (7200 s)
-    out.append(H("c02_overflowing_uf_256", "C02", "c02::overflowing_uf::<256,4,9>", unwind=11, tier="thorough",
-                 inst="Uint<256,4>", domain=UFDOM, free_bits=512, stubs=UF, abstract=True,
-                 fns=["overflowing_mul", "algorithms::addmul"], timeout=7200, covers_required=["overflows", "fits-nonzero"]))
-    out.append(H("c02_widening_uf_192_192", "C02", "c02::widening_uf::<192,3,192,3,384,6,7>", unwind=9, tier="thorough",
-                 inst="Uint<192,3> x Uint<192,3> -> Uint<384,6>", domain=UFDOM, free_bits=384, stubs=UF, abstract=True,
-                 fns=["widening_mul"], timeout=7200))
+    SMALLDOM = ("unit-limb sub-domain: every limb of one operand 0 or 1, the other operand FULL, either operand order; UF layer, "
+                "exact on this sub-domain (all products fixed by the axioms 0*x = 0, 1*x = x)")
+    for b, tier in [(128, "quick"), (192, "thorough")]:   # 250/256/320/512: no result in 1500 s (probe)
+        l = nlimbs(b)
+        w = 2 * l + 1
+        out.append(H("c02_mul_unit_%d" % b, "C02", "c02::mul_unit::<%d,%d,%d>" % (b, l, w), unwind=w + 2, tier=tier,
+                     inst="Uint<%d,%d>" % (b, l), domain=SMALLDOM, free_bits=b + l + 1, timeout=3600, stubs=UF,
+                     fns=["overflowing_mul", "wrapping_mul", "algorithms::addmul", "algorithms::addmul_n"],
+                     covers_required=["overflows", "fits-nonzero"]))
+    for (b1, b2), tier in [((192, 192), "quick")]:   # 256x256: no result in 1500 s (probe)
+        l1, l2 = nlimbs(b1), nlimbs(b2)
+        br = b1 + b2
+        lr = nlimbs(br)
+        w = l1 + l2 + 1
+        out.append(H("c02_widening_unit_%d_%d" % (b1, b2), "C02",
+                     "c02::widening_unit::<%d,%d,%d,%d,%d,%d,%d>" % (b1, l1, b2, l2, br, lr, w), unwind=w + 2, tier=tier,
+                     inst="Uint<%d,%d> x Uint<%d,%d> -> Uint<%d,%d>" % (b1, l1, b2, l2, br, lr), domain=SMALLDOM,
+                     free_bits=b2 + l1, fns=["widening_mul", "algorithms::addmul"], timeout=3600, stubs=UF))
+    # (FULL-domain UF at 4-limb shapes of the generic trimming addmul - overflowing_mul 256, widening 192x192 - gave no verdict in
+    #  a 30-minute background run: not registered)
     b = 256
     l = nlimbs(b)
     w = 2 * l + 1
